@@ -164,9 +164,10 @@ def _paths_line(g, L, known, grid, triples, tier, rng, directed):
     if not present:
         qs.append(_dag(g, L, known, known[0], 0, NoT, NoT))
         qs.append(_trp(g, L, known[0], 0, NoT, NoT, 1))
-    valid = [(s, e) for (s, e) in wins if s == NoT or (ts and ts[0] <= s <= e <= ts[-1])]
+    ids = obs["ids"]          # windows inside the observed snapshot range
+    valid = [(s, e) for (s, e) in wins if s == NoT or (ids and ids[0] <= s <= e <= ids[-1])]
     for (s, e) in (valid if tier == "thorough" else valid[:3]):
-        for m in [NoT] + (ts if tier == "thorough" else ts[:1]):
+        for m in [NoT] + (ts if tier == "thorough" else (ts[:1] + ids[-1:])):
             qs.append(_atrp(g, L, s, e, m))
     return {"op": "paths", "fork": False, "res": "ok", "triples": [list(t) for t in triples], "obs": obs, "qs": qs}
 
@@ -183,11 +184,14 @@ def job_graph(job):
     L = core.labeling(lab).prime(max(known) + 1)
     ts = sorted({t for (_, _, t) in triples})
     grid = (min(ts) - 1, max(ts) + 2) if ts else (-1, 2)
-    head = {"op": "new", "dir": bool(directed), "rem": True, "fork": False, "res": "ok", "lab": lab,
-            "obs": core.observe(core.new_graph(directed, True), L, known, grid)}
+    # a seeded share of the graphs is accumulative (edge_removal=False): the statements speak of "present in G", whatever
+    # the mode; the triples are then only the instants of the adds, the presence relation is the observed one
+    removal = rng.random() >= 0.2
+    head = {"op": "new", "dir": bool(directed), "rem": removal, "fork": False, "res": "ok", "lab": lab,
+            "obs": core.observe(core.new_graph(directed, removal), L, known, grid)}
     lines = [head]
     ops = _ops(directed, triples, rng)
-    g = core.new_graph(directed, True)
+    g = core.new_graph(directed, removal)
     staged = len(ops) >= 2 and rng.random() < 0.4
     if staged:
         # chronological growth: runs sorted by their start (stable: the order of a pair's own runs is kept)
